@@ -231,14 +231,16 @@ Fixpoint mp_reads (k : nat) (len limit m : Z) (s : mpr) : list (Z * bool) :=
 (* ---------- grpc/json provider (grpcjson.Provider.start) ---------- *)
 Inductive gres :=
 | GDeliver (tag call : bytes)
+| GInvalid     (* ContinueOnError: the undecodable line is delivered as an invalidated ammo *)
 | GErr
 | GSpin.        (* the pass loop repeats for ever without delivering anything (unreachable) *)
 
 Section GrpcJson.
   (* jsoniter.Unmarshal of one line into ammo.Ammo: (tag, call) or an error *)
   Variable unmarshal : bytes -> option (bytes * bytes).
+  Variable continue_on_error : bool.
 
-  (* the first k things a consumer sees (Limit = Passes = 0, ContinueOnError = false) *)
+  (* the first k things a consumer sees (Limit = Passes = 0) *)
   Fixpoint grpc_run (k : nat) (all : list bytes) (e : scan_end) (left : list bytes) : list gres :=
     match k with
     | O => []
@@ -246,7 +248,7 @@ Section GrpcJson.
         let step l r :=
           match unmarshal (drop_cr l) with
           | Some (t, c) => GDeliver t c :: grpc_run k' all e r
-          | None => [GErr]
+          | None => if continue_on_error then GInvalid :: grpc_run k' all e r else [GErr]
           end in
         match left with
         | l :: r => step l r
